@@ -250,7 +250,8 @@ pub fn verif_slice_from(s: &[u8], a: usize) -> (r: &[u8]) requires a <= s@.len()
 def add_streams(U):
     U.item(F_R, "enum WriteCommand")
     U.item(F_R, "struct ReadReusableStream", subs=[("channel::UnboundedReceiver<Frame>", "FrameReceiver")])
-    U.item(F_R, "struct WriteReusableStream", subs=[("bytes::Buffer", "Buffer"), ("channel::Sender<WriteCommand>", "WriteSender"), ("Arc<sync::Notify>", "Arc<Notify>")])
+    U.item(F_R, "struct WriteReusableStream", subs=[("bytes::Buffer", "Buffer"), ("channel::Sender<WriteCommand>", "WriteSender"), ("Arc<sync::Notify>", "Arc<Notify>"),
+                                                     ("buffer: Buffer,", "buffer: Buffer,\n    pub verif_sent: Ghost<Seq<u8>>,   // W-ghost: the bytes handed to the writer task as DATA frames so far, in order")])
     U.item(F_T, "struct ReadStream", subs=[("sync::ExclusiveLock<ReadReusableStream>", "ReadReusableStream   /* R-type: ExclusiveLock derefs to its content */")])
     U.item(F_T, "struct WriteStream", subs=[("sync::ExclusiveLock<WriteReusableStream>", "WriteReusableStream   /* R-type */")])
     U.raw(PRELUDE_S, label="prelude streams")
@@ -330,22 +331,34 @@ impl FrameReceiver {
     U.fn(F_R, "impl WriteReusableStream :: fn send_data", wrap="impl WriteReusableStream", ret="r", props=["C14"],
          header_subs=[("ctx::Ctx", "Ctx")],
          subs=[("std::mem::replace(", "core::mem::replace("), ("bytes::Buffer::new(", "Buffer::new(", None),
-               ("slot.send(WriteCommand::Frame(frame));", "slot.send(WriteCommand::Frame(frame), Ghost(self.cfg.write_frame_size as int));   /* W-ghost */")],
+               ("slot.send(WriteCommand::Frame(frame));", "slot.send(WriteCommand::Frame(frame), Ghost(self.cfg.write_frame_size as int)); "
+                "proof { self.verif_sent = Ghost(self.verif_sent@ + verif_out); }   /* W-ghost */"),
+               ("let header = Header::new(FrameKind::DATA,", "let ghost verif_out = self.buffer.content();   /* W-ghost */\n        let header = Header::new(FrameKind::DATA,")],
          spec="""
     requires old(self).wf(),
     ensures final(self).wf(), final(self).cfg == old(self).cfg,
             // Ok: the buffered bytes went out as ONE DATA frame of at most write_frame_size bytes and the buffer is empty again
-            r.is_ok() ==> final(self).buffer.content().len() == 0,
-            r.is_err() ==> final(self).buffer == old(self).buffer,
+            r.is_ok() ==> final(self).buffer.content().len() == 0 && final(self).verif_sent@ == old(self).verif_sent@ + old(self).buffer.content(),
+            r.is_err() ==> final(self).buffer == old(self).buffer && final(self).verif_sent == old(self).verif_sent,
 """)
     U.fn(F_T, "impl WriteStream :: fn write_all", wrap="impl WriteStream", ret="r", props=["C14"],
          header_subs=[("ctx::Ctx", "Ctx"), ("anyhow::Result<()>", "Result<(), AnyhowError>")],
          subs=[("&buf[offset..]", "verif_slice_from(buf, offset)   /* R-std */")],
-         loops={0: dict(prefix="while offset < buf.len()", inv="self.0.wf(), offset <= buf@.len(), self.0.cfg.write_frame_size > 0,",
+         loops={0: dict(prefix="while offset < buf.len()", inv="self.0.wf(), offset <= buf@.len(), self.0.cfg.write_frame_size > 0,\n"
+                            "            self.0.verif_sent@ + self.0.buffer.content() == old(self).0.verif_sent@ + old(self).0.buffer.content() + buf@.subrange(0, offset as int),",
                         decreases="buf@.len() - offset")},
+         post_subs=[("let mut offset = 0;", "let mut offset = 0; proof { assert(old(self).0.verif_sent@ + old(self).0.buffer.content() + buf@.subrange(0, 0) =~= old(self).0.verif_sent@ + old(self).0.buffer.content()); }"),
+                    ("offset += self.0.buffer.push(verif_slice_from(buf, offset)   /* R-std */);",
+                     "let ghost verif_s0 = self.0.verif_sent@; let ghost verif_c0 = self.0.buffer.content(); let ghost verif_o0 = offset; "
+                     "let verif_k = self.0.buffer.push(verif_slice_from(buf, offset)   /* R-std */); offset += verif_k;   /* R-let */ "
+                     "proof { assert(self.0.buffer.content() =~= verif_c0 + buf@.subrange(verif_o0 as int, offset as int)); "
+                     "assert(buf@.subrange(0, offset as int) =~= buf@.subrange(0, verif_o0 as int) + buf@.subrange(verif_o0 as int, offset as int)); "
+                     "assert(self.0.verif_sent@ + self.0.buffer.content() =~= (verif_s0 + verif_c0) + buf@.subrange(verif_o0 as int, offset as int)); }")],
          spec="""
     requires old(self).0.wf(), old(self).0.cfg.write_frame_size > 0,
     ensures final(self).0.wf(),
+            // Ok: every byte of `buf` has been appended, in order, to what was already sent or buffered (nothing lost, duplicated or reordered)
+            r.is_ok() ==> final(self).0.verif_sent@ + final(self).0.buffer.content() == old(self).0.verif_sent@ + old(self).0.buffer.content() + buf@,
 """)
 
 
